@@ -439,3 +439,42 @@ def _scalar_param(f, p):
         return True
     k = f.docparams().get(p, {}).get("kind")
     return k in ("int", "bool") or "float" in f.docparams().get(p, {}).get("type", "")
+
+
+# ------------------------------------------------------------------ loop headers of a kernel against their confirmed extents
+def loop_headers_rule(fi, expected, rule, role):
+    """the loops of fi, in source order, run over the confirmed ranges.  Headers are compared as linear forms over names
+    (range(0, n) == range(n)); a header that differs by a provable constant is a VIOLATION (an element is skipped or an extra one
+    visited), any other difference is UNRECOGNISED."""
+    loops = [n for n in walk_no_nested(fi.node) if isinstance(n, ast.For)]
+    got = [unparse(l.iter) for l in loops]
+    if len(got) == len(expected):
+        expected = [g if e is None else e for g, e in zip(got, expected)]     # None = decided by another rule
+    if got == expected:
+        return [holds(rule, fi, role, "%d loop headers as confirmed" % len(got), fi.node, nontrivial=False)]
+    if len(got) != len(expected):
+        return [unrecognised(rule, fi, role, "loop structure changed: %s" % got)]
+    ai = AbsInt(fi)
+    st = ai.init.copy()
+
+    def rng(text):
+        e = ast.parse(text, mode="eval").body
+        if isinstance(e, ast.Call) and dotted(e.func) in ("range", "numba.prange", "prange", "trange") and not e.keywords:
+            a = e.args
+            lo, hi, step = (ast.Constant(value=0), a[0], ast.Constant(value=1)) if len(a) == 1 else (a[0], a[1], a[2] if len(a) > 2 else ast.Constant(value=1))
+            return tuple(ai.lin(st.copy(), x) for x in (lo, hi, step))
+        return None
+    for l, g, e in zip(loops, got, expected):
+        if g == e:
+            continue
+        rg, re_ = rng(g), rng(e)
+        if rg is None or re_ is None or None in rg or None in re_:
+            return [unrecognised(rule, fi, role, "loop `%s` (confirmed: `%s`)" % (g, e), l)]
+        if all(a == b for a, b in zip(rg, re_)):
+            continue
+        diffs = [(a - b) for a, b in zip(rg, re_)]
+        if all(d.is_const() for d in diffs):
+            return [violation(rule, fi, role, "loop runs over `%s` instead of `%s`: %s" % (g, e, "an element is skipped" if (diffs[1].c < 0 or diffs[0].c > 0) else "an element outside the confirmed range is visited"), l,
+                              witness={"got": g, "confirmed": e})]
+        return [unrecognised(rule, fi, role, "loop `%s` (confirmed: `%s`)" % (g, e), l)]
+    return [holds(rule, fi, role, "%d loop headers equal the confirmed ranges as linear forms" % len(got), fi.node, nontrivial=False)]
